@@ -5,6 +5,9 @@ import "verif/lib/core"
 func init() {
 	core.Meta["C10"] = core.PropMeta{Level: "fault_enumeration", Assumptions: []string{
 		"4 KiB page granularity for torn writes", "truthful commit-offset provider (component level)", "file truncation is not a generated fault"}}
+	core.Meta["C05"] = core.PropMeta{Level: "fault_enumeration", Assumptions: []string{
+		"crash points sampled by (kind, ordinal) per schedule", "process-crash model for nodes: database back to its flushed image, log files kept",
+		"an observer of the metadata file sees what a restart after a process crash at that instant would load"}}
 	core.Meta["C09"] = core.PropMeta{Level: "exploration", Assumptions: []string{"list model written from the property text"}}
 	core.Meta["C12"] = core.PropMeta{Level: "exploration", Assumptions: []string{"reference model is a second implementation written from the property text"}}
 }
